@@ -5,6 +5,7 @@ cd "$(dirname "$0")"
 rm -rf _build && mkdir _build
 cp gen/*.ml gen/*.mli _build/
 cp wire.ml reg_*.ml driver.ml _build/
+for x in ${VERIF_EXCLUDE_REG:-}; do rm -f _build/$x; done
 cd _build
 { printf 'let tables = ['; for f in reg_*.ml; do m=$(basename $f .ml); M="$(echo $m | cut -c1 | tr a-z A-Z)$(echo $m | cut -c2-)"; printf '%s.table; ' "$M"; done; echo ']'; } > all_regs.ml
 ORDER=$(ocamlfind ocamldep -sort *.mli *.ml)
